@@ -156,6 +156,9 @@ func runCtm(c *Ctx, _ []string) {
 		// against the number of bytes in the frames the model parses before its failure
 		if len(stream) > 2 {
 			k := r.Range(1, len(stream)-1)
+			if r.Bool() { // half of the cuts in the last third: behind complete frames
+				k = r.Range(len(stream)-1-len(stream)/3, len(stream)-1)
+			}
 			res2 := decompressTimed(stream[:k], sCfg{"NONE", ent, bs, 1, ck, hint, false}, 1, nil, 0, nil, 60*time.Second)
 			if res2.err == nil || res2.eof || !isPrefix(res2.data, data) {
 				c.Violation(map[string]any{"what": "a truncated NONE/" + ent + " stream was read without an error, or gave bytes that are not a prefix", "cut": k, "of": len(stream)})
